@@ -243,7 +243,15 @@ func c15GenChart(r *rand.Rand, depth int, name string, hostile bool) *c15Chart {
 
 func c15GenRt(r *rand.Rand) c15Case {
 	hostile := r.Intn(5) == 0
-	return c15Case{Kind: "rt", Chart: c15GenChart(r, 2, c15Pick(r, c15GoodNames), hostile)}
+	c := c15Case{Kind: "rt", Chart: c15GenChart(r, 2, c15Pick(r, c15GoodNames), hostile)}
+	if r.Intn(12) == 0 { // a file at / just below / just above a lowered per-file limit
+		c.MaxFile = int64(400 + r.Intn(200))
+		c.Chart.Deps = nil // SaveDir stores dependencies as archives, which would exceed the lowered limit themselves
+		c.Chart.Meta.Dependencies = nil
+		n := int(c.MaxFile) - 1 + r.Intn(3)
+		c.Chart.Files = append(c.Chart.Files, c15File{Name: "files/boundary.bin", Data: bytes.Repeat([]byte{byte(r.Intn(200))}, n)})
+	}
+	return c
 }
 
 // c15TgzOf saves a generated chart with the real Save and returns the bytes (used as
@@ -475,6 +483,12 @@ func (p *c15) Corpus() []any {
 	out = append(out, c15Case{Kind: "rt", Chart: &c15Chart{Meta: md("v2", "boms", "0.1.0"),
 		Templates: []c15File{{Name: "templates/two.yaml", Data: append(append(append([]byte{}, bom...), bom...), []byte("a: 1")...)}},
 		Files:     []c15File{{Name: "notes.txt", Data: append(append(append(append([]byte{}, bom...), bom...), bom...), []byte("text")...)}, {Name: "bin/two", Data: append(append(append([]byte{}, bom...), bom...), 1, 2, 3)}}}})
+	// files of exactly the per-file limit, one byte less and one byte more (limit lowered to 300
+	// for the case): at the limit the chart packages, loads from the directory AND from its archive
+	for _, n := range []int{299, 300, 301} {
+		out = append(out, c15Case{Kind: "rt", MaxFile: 300, Chart: &c15Chart{Meta: md("v2", "atlimit", "0.1.0"),
+			Templates: []c15File{{Name: "templates/big.yaml", Data: bytes.Repeat([]byte("a"), n)}}, Files: []c15File{{Name: "files/blob", Data: bytes.Repeat([]byte{7}, n)}}}})
+	}
 	// plain round trips: v2 with lock, v1 with requirements files, nested dependencies
 	lock := &chart.Lock{Generated: time.Unix(1700000000, 5).UTC(), Digest: "sha256:0123", Dependencies: []*chart.Dependency{{Name: "sub", Version: "0.1.0", Repository: "https://example.com"}}}
 	out = append(out, c15Case{Kind: "rt", Chart: &c15Chart{Meta: md("v2", "full", "1.2.3"), Lock: lock, HasValues: true, Values: []byte("a: 1\n# c\nb: [x]\n"),
